@@ -1321,7 +1321,11 @@ class Pool:
                         proc = cleaned.get(acked_by_gone)
                         if proc and getattr(proc, '_job_terminated', False):
                             job._set_terminated(exitcode)
-                        else:
+                        elif not job._worker_lost:
+                            # a job already marked (its worker was reaped in
+                            # an earlier round) keeps its detection time:
+                            # reaping another worker must not restart the
+                            # grace period.
                             self.on_job_process_lost(
                                 job, acked_by_gone, exitcode,
                             )
